@@ -1,6 +1,7 @@
 package lens
 
 import (
+	"time"
 	"context"
 	"fmt"
 	"math/rand/v2"
@@ -173,7 +174,7 @@ func (c20) Gen(r *rand.Rand, tier string, idx int) *core.Plan {
 			if r.IntN(6) == 0 {
 				meta = int64(1 + r.IntN(3))
 			}
-			p.Ops = append(p.Ops, core.Op{Kind: "install", S: []string{name}, I: []int64{v, b(25), b(60), 1 - b(30), b(50), b(50), b(40), b(50), second, meta, int64(r.IntN(8) % 5)}})
+			p.Ops = append(p.Ops, core.Op{Kind: "install", S: []string{name}, I: []int64{v, b(25), b(60), 1 - b(30), b(50), b(50), b(40), b(50), second, meta, int64(r.IntN(8) % 5), b(12)}})
 		case x < 7:
 			p.Ops = append(p.Ops, core.Op{Kind: "uninstall", S: []string{name}})
 		case x < 9:
@@ -182,8 +183,12 @@ func (c20) Gen(r *rand.Rand, tier string, idx int) *core.Plan {
 			p.Ops = append(p.Ops, core.Op{Kind: "list"})
 		}
 	}
-	if r.IntN(5) == 0 {
-		p.Faults = append(p.Faults, rt.Fault{Task: 0, Op: core.Pick(r, "write", "open", "mkdir", "chmod", "read"), Nth: r.IntN(12), Kind: core.Pick(r, "ENOSPC", "EIO")})
+	switch r.IntN(10) {
+	case 0, 1:
+		p.Faults = append(p.Faults, rt.Fault{Task: 1, Op: core.Pick(r, "write", "open", "mkdir", "chmod", "read"), Nth: r.IntN(12), Kind: core.Pick(r, "ENOSPC", "EIO")})
+	case 2, 3:
+		// the user process is killed at a file-system step (the next process goes on with the next operation)
+		p.Faults = append(p.Faults, rt.Fault{Task: 1, Op: core.Pick(r, "write", "open", "mkdir", "chmod", "close", "unlink", "rmdir", "stat", "readdir"), Nth: r.IntN(10), Kind: core.Pick(r, "crash.before", "crash.after")})
 	}
 	return p
 }
@@ -241,7 +246,8 @@ func (l c20) Exec(env *core.Env) *core.Result {
 	defer func() { rt.Cur = nil }()
 	var trace []map[string]any
 	var user *rt.Task
-	user = sim.Go("user", func() {
+	cur, inOp := 0, false // the operation in progress (for the supervisor, when the user process is killed)
+	runOps := func(start int) {
 		ctx := context.Background()
 		mgr := plugin.NewCLIManager(dir.NewSysFS(root))
 		answers := func(name string) (string, error) {
@@ -255,11 +261,14 @@ func (l c20) Exec(env *core.Env) *core.Result {
 			}
 			return md.Name + "@" + md.Version, nil
 		}
-		for i, op := range p.Ops {
+		for i := start; i < len(p.Ops); i++ {
+			op := p.Ops[i]
+			cur, inOp = i, false
 			rt.Yield("op")
 			name := op.Str(0)
 			before := snapshot(root)
 			faultsBefore := user.FaultsSeen
+			inOp = true
 			switch op.Kind {
 			case "install":
 				version := c20Versions[op.Int(0)%int64(len(c20Versions))]
@@ -309,6 +318,15 @@ func (l c20) Exec(env *core.Env) *core.Result {
 						os.Symlink("does-not-exist", filepath.Join(d, "AAA-dangling"))
 					case 4: // a symlink to a directory
 						os.Symlink(".", filepath.Join(d, "dirlink"))
+					}
+					if op.Int(11) == 1 {
+						// a sub-directory that carries the same name as the source directory itself, with a complete
+						// plugin of its own inside: a sub-directory like any other
+						same := filepath.Join(d, filepath.Base(d))
+						os.MkdirAll(same, 0755)
+						os.WriteFile(filepath.Join(same, "notation-"+name), c20ExeWith(c16Meta(name, "99.0.0")), 0755)
+						os.Chmod(filepath.Join(same, "notation-"+name), 0755)
+						os.WriteFile(filepath.Join(same, "LICENSE"), []byte("license of the nested copy"), 0644)
 					}
 					if subdir {
 						os.MkdirAll(filepath.Join(d, "sub", "deeper"), 0755)
@@ -366,7 +384,7 @@ func (l c20) Exec(env *core.Env) *core.Result {
 				if err != nil {
 					verdict = "refused"
 				}
-				key := fmt.Sprintf("install v=%s over=%v installed=%v dir=%v exec=%v before=%v after=%v sub=%v shadow=%v second=%d meta=%d link=%d", version, overwrite, old != nil, fromDir, candExec, extraBefore, extraAfter, subdir, shadow, second, meta, op.Int(10))
+				key := fmt.Sprintf("install v=%s over=%v installed=%v dir=%v exec=%v before=%v after=%v sub=%v shadow=%v second=%d meta=%d link=%d samename=%d", version, overwrite, old != nil, fromDir, candExec, extraBefore, extraAfter, subdir, shadow, second, meta, op.Int(10), op.Int(11))
 				trace = append(trace, map[string]any{"op": key, "name": name, "verdict": verdict, "faulted": faulted})
 				sim.Abstract(key + "|" + name + "|" + verdict)
 				if old != nil || (fromDir && (extraBefore || extraAfter || subdir)) {
@@ -525,6 +543,33 @@ func (l c20) Exec(env *core.Env) *core.Result {
 					res.Violate("C20/list-mismatch", "", "List = %q, %v; installed: %q", got, err, want)
 				}
 			}
+		}
+		cur, inOp = len(p.Ops), false
+	}
+	// the supervisor starts the user process and, when it was killed in the middle of an operation,
+	// a new one that goes on with the following operation (a new CLI invocation after a kill)
+	sim.Go("supervisor", func() {
+		start := 0
+		for gen := 0; start < len(p.Ops) && gen < 4; gen++ {
+			done := false
+			from := start
+			user = sim.Go(fmt.Sprint("user-", gen), func() {
+				defer func() { done = true }()
+				runOps(from)
+			})
+			rt.WaitUntil("user process", func() bool { return done }, time.Time{})
+			if cur >= len(p.Ops) {
+				return
+			}
+			// killed (or ended by a panic, reported below)
+			if inOp {
+				op := p.Ops[cur]
+				if op.Kind == "install" || op.Kind == "uninstall" {
+					unknown[op.Str(0)] = true
+					res.Probe("user_process_killed_inside_" + op.Kind)
+				}
+			}
+			start = cur + 1
 		}
 	})
 	sim.Run()
